@@ -189,6 +189,19 @@ CHECKS = {
         note="Trusted: TLC, renderer, the Python validator. One genuine defect (synthesized operationIds collide) is a recorded known finding.",
         technique="TLA+ model of reference inlining/registration, path keys and operationId synthesis (TLC over URI pairs) + independent structural validation of every emitted document",
     ),
+    "C05": dict(
+        design_ref="DESIGN.md 4 (C05)",
+        text="At the level of the specification TLC checks AbstractionFree (EvalAbsMC.tla): for every (position, shape) of the PosShape "
+             "family the outcome predicted by Kinds.tla/EvalAbs.tla is the same whether the value is written in place, named with let, "
+             "passed through an identity function, or the let / function is moved to an imported module; TriviaInvisible is checked in "
+             "PegMC.tla and the binding relation is order-free by construction. On the real compiler, accepted family members are "
+             "rewritten on the abstract syntax (3 trivia styles, permutation of declarations, consistent renaming, parenthesise all / "
+             "one expression, name-with-let, inline-let, wrap-in-function, move-to-module, and the family's own indirections); original "
+             "and rewritten program are compiled: the rewritten one must be accepted and emit the same document up to generated "
+             "component names (hash-named components unfolded).",
+        note="Trusted: TLC, renderer (cross-checked by tree2ast), the rewrite implementations with their side conditions, absdoc.canon. Renaming of @reference names and @let introduction are not meaning-preserving and are excluded.",
+        technique="TLA+ invariance of predicted outcomes under indirection (TLC) + metamorphic replay of AST rewrites on the real compiler with documents compared up to generated names",
+    ),
 }
 
 PENDING_REASON = "check not built yet (work in progress; see DESIGN.md section 8 for the build order)"
